@@ -307,7 +307,7 @@ def scenario(draw, p=None):
     kind = draw(st.sampled_from(p["target_kinds"]))
     ccls = [draw(st.sampled_from(p["c_classes"])) for _ in range(D)]
     cz = [draw(c_coord(coords[i], ccls[i], nonlinear)) for i in range(D)]
-    scale = draw(st.sampled_from([1.0, 1.0, 1e-2, 10.0, 1e2, 1e4]))
+    scale = draw(st.sampled_from(list(p.get("scales", (1.0, 1.0, 1e-2, 10.0, 1e2, 1e4)))))
     tgt = dict(kind=kind, c=cz, scale=scale, offset=draw(st.sampled_from([0.0, 0.0, -3.5, 1000.0])),
                z=zs, out=draw(st.sampled_from(p["out_spellings"])), ccls=ccls)
     if kind == "quad":
@@ -321,7 +321,7 @@ def scenario(draw, p=None):
     mode = draw(st.sampled_from(p["noise_modes"]))
     noise = dict(mode=mode)
     if mode != "none":
-        noise["sigma"] = draw(st.sampled_from([1e-3, 0.1, 1.0, 10.0])) * (scale if draw(st.booleans()) else 1.0)
+        noise["sigma"] = draw(st.sampled_from([1e-3, 0.1, 1.0, 10.0])) * (min(scale, 1e4) if draw(st.booleans()) else 1.0)
         noise["hetero"] = draw(st.sampled_from([0.0, 0.5, 3.0])) if mode == "specified" else 0.0
     tgt["noise"] = noise
     noisy_declared = mode in ("declared", "specified")
@@ -384,6 +384,9 @@ def scenario(draw, p=None):
             opts["cache_size"] = draw(st.sampled_from([1, 2, 5, 17]))
         if chance(draw, 0.1):
             opts["tol_fun"] = draw(st.sampled_from([1e-6, 1e-1, 1.0]))
+    for name, values, prob in p.get("extra_opts", ()):
+        if chance(draw, prob):
+            opts[name] = draw(st.sampled_from(list(values)))
     opts["display"] = draw(st.sampled_from(["off", "off", "off", "off", "iter", "full"]))
     np_seed = draw(st.integers(0, 2**31 - 1))
     if not chance(draw, p["p_seed_none"]):
